@@ -9,6 +9,10 @@ can leak into the next one.
 
 The zygote is owned by the process that created it (pid check): forked pool workers create their
 own on first use, while they are still fresh.
+
+A second kind of reference process, the *peer*, is not forked but started as a NEW interpreter with
+another PYTHONHASHSEED (and then serves requests the same way, one grandchild per request): what
+it answers cannot depend on the hash seed or on anything the requesting process has done.
 """
 import os
 import pickle
@@ -104,4 +108,45 @@ def reference(module_name, function_name, *args):
     _state["requests"] += 1
     if status != "ok":
         raise RuntimeError("reference process failed: %s" % value)
+    return value
+
+
+# ---- peer: a reference interpreter of its own, started under another hash seed ------------------
+_peer = {"pid": None, "proc": None}
+PEER_HASHSEED = "90210"
+
+
+def _serve_stdio(preload=""):
+    """Main of the peer interpreter: requests on fd 0, answers on a private copy of fd 1."""
+    out_fd = os.dup(1)
+    os.dup2(2, 1)  # whatever the code under test prints must not end up in the answer stream
+    for name in filter(None, preload.split(",")):
+        __import__(name)  # imported once here, inherited by every per-request child
+    _zygote_loop(0, out_fd)
+
+
+def ensure_peer(preload=()):
+    import subprocess
+    if _peer["pid"] == os.getpid() and _peer["proc"] is not None and _peer["proc"].poll() is None:
+        return
+    here = os.path.dirname(os.path.dirname(os.path.abspath(__file__)))
+    src = os.environ.get("CLIKIT_SRC", "/repo/src")
+    env = dict(os.environ, PYTHONHASHSEED=PEER_HASHSEED, PYTHONPATH=os.pathsep.join([here, src]),
+               PYTHONDONTWRITEBYTECODE="1")
+    env.pop("COLUMNS", None)
+    env.pop("LINES", None)
+    proc = subprocess.Popen([sys.executable, "-B", "-c", "import dsim.zygote as z; z._serve_stdio(%r)" % ",".join(preload)],
+                            stdin=subprocess.PIPE, stdout=subprocess.PIPE, env=env, close_fds=True)
+    _peer.update({"pid": os.getpid(), "proc": proc})
+
+
+def peer_reference(module_name, function_name, *args):
+    """Runs ``module.function(*args)`` in a child of the peer interpreter (fresh process state, other
+    hash seed) and returns its result."""
+    ensure_peer((module_name,))
+    proc = _peer["proc"]
+    _send(proc.stdin.fileno(), ((module_name, function_name), args))
+    status, value = _recv(proc.stdout.fileno())
+    if status != "ok":
+        raise RuntimeError("peer reference failed: %s" % value)
     return value
